@@ -1,4 +1,5 @@
 import RedactVerif.Proofs.Plain
+import RedactVerif.Proofs.Lab
 import RedactVerif.Props.C02
 /-
 C09 — SafeWriter contract: each payload lands once, in order, on its own side.
@@ -286,5 +287,259 @@ example : EndsRune ([0x61, 0xE2, 0x80] ++ [0xC3, 0xA9]) := Or.inr ⟨_, [0xC3, 0
 /-- The hypothesis of the partial theorems, read on the code's own test: a payload "ends in a
 complete character" exactly when `InternalEscapeBytes`' tail test (`DecodeLastRune`) passes on it. -/
 theorem endsRune_iff_tail_test (p : List Byte) : EndsRune p ↔ tailBad p = false := (tailBad_false_iff p).symm
+
+/-! ### The labelled reading: agreement up to merging of adjacent envelopes
+
+`Proofs/Lab.lean`: `labT` reads a redactable as its bytes in order, each with its side (inside an
+envelope or outside). Merging adjacent envelopes and dropping empty ones are exactly what it
+ignores (`labT_merge`, `labT_empty_env`), and it determines both readings above
+(`stripT_of_lab`, `safeText_of_lab`). -/
+
+
+/-- What a call contributes to the labelled reading: its payload on its own side — safe calls
+outside (markers replaced by `?`), unsafe calls inside (markers replaced by `?`) except their line
+feeds, inner print results as they are. -/
+def labW : WOp → List LB
+  | .safeString p => pendLab .safeEsc p
+  | .safeNum p => pendLab .safeEsc p
+  | .unsafeString p => pendLab .unsafeEsc p
+  | .safeByte x => pendLab .safeEsc [x]
+  | .unsafeByte x => pendLab .unsafeEsc [x]
+  | .safeRune r => pendLab .safeEsc (encodeRune r)
+  | .unsafeRune r => pendLab .unsafeEsc (encodeRune r)
+  | .print r => pendLab .raw r
+
+theorem lr_init : LR Buffer.init [] := by
+  unfold LR; simp [Buffer.init, Buffer.pre, Buffer.suf, pendLab_nil, labT, labFrom]
+
+theorem builderOps_L (b : Buffer) (w : WOp) (acc dacc : List Tok) (lacc : List LB) (k : KInv b acc dacc) (l : LR b lacc)
+    (hw : CleanW w) : LR (b.run (builderOps w)) (lacc ++ labW w) := by
+  have sm : ∀ m, KInv (b.setMode m) acc dacc := fun m => setMode_K b m acc dacc k
+  have sl : ∀ m, LR (b.setMode m) lacc := fun m => setMode_L b m acc dacc lacc k l
+  have md : ∀ m, (b.setMode m).mode = m := setMode_mode b
+  cases w with
+  | safeString p =>
+    have := write_L _ p acc dacc lacc (sm .safeEsc) (sl .safeEsc)
+    simpa [builderOps, Buffer.run, Buffer.step, md, labW] using this
+  | safeNum p =>
+    have := write_L _ p acc dacc lacc (sm .safeEsc) (sl .safeEsc)
+    simpa [builderOps, Buffer.run, Buffer.step, md, labW] using this
+  | unsafeString p =>
+    have := write_L _ p acc dacc lacc (sm .unsafeEsc) (sl .unsafeEsc)
+    simpa [builderOps, Buffer.run, Buffer.step, md, labW] using this
+  | safeByte x =>
+    have hx : x < 0x80 := hw
+    have := write_L _ [x] acc dacc lacc (sm .safeEsc) (sl .safeEsc)
+    simp only [builderOps, Buffer.run, List.foldl_cons, List.foldl_nil, Buffer.step]
+    rw [writeByte_ascii _ x (sm .safeEsc).inv hx]
+    simpa [md, labW] using this
+  | unsafeByte x =>
+    have hx : x < 0x80 := hw
+    have := write_L _ [x] acc dacc lacc (sm .unsafeEsc) (sl .unsafeEsc)
+    simp only [builderOps, Buffer.run, List.foldl_cons, List.foldl_nil, Buffer.step]
+    rw [writeByte_ascii _ x (sm .unsafeEsc).inv hx]
+    simpa [md, labW] using this
+  | safeRune r =>
+    have := write_L _ (encodeRune r) acc dacc lacc (sm .safeEsc) (sl .safeEsc)
+    simpa [builderOps, Buffer.run, Buffer.step, Buffer.writeRune, Buffer.write, md, labW] using this
+  | unsafeRune r =>
+    have := write_L _ (encodeRune r) acc dacc lacc (sm .unsafeEsc) (sl .unsafeEsc)
+    simpa [builderOps, Buffer.run, Buffer.step, Buffer.writeRune, Buffer.write, md, labW] using this
+  | print r =>
+    have := write_L _ r acc dacc lacc (sm .raw) (sl .raw)
+    simpa [builderOps, Buffer.run, Buffer.step, md, labW] using this
+
+theorem builderRun_L (b : Buffer) (ws : List WOp) (acc dacc : List Tok) (lacc : List LB) (k : KInv b acc dacc) (l : LR b lacc)
+    (hw : ∀ w ∈ ws, CleanW w) : LR (builderRun b ws) (lacc ++ ws.flatMap labW) := by
+  induction ws generalizing b acc dacc lacc with
+  | nil => simpa [builderRun, Buffer.run] using l
+  | cons w r ih =>
+    have e : builderRun b (w :: r) = builderRun (b.run (builderOps w)) r := by simp [builderRun, run_append]
+    rw [e]
+    have := ih _ _ _ _ (builderOps_K b w acc dacc k (hw w (by simp))) (builderOps_L b w acc dacc lacc k l (hw w (by simp)))
+      (fun w' hw' => hw w' (by simp [hw']))
+    simpa [List.flatMap_cons, List.append_assoc] using this
+
+/-- **C09, labelled reading of the StringBuilder**: the result's bytes, each with its side, are the
+concatenation in call order of the payloads on their own sides. -/
+theorem builder_lab_partial (ws : List WOp) (hw : ∀ w ∈ ws, CleanW w) :
+    labT (tokenize (builderRun Buffer.init ws).redactableBytes) = ws.flatMap labW := by
+  have k := builderRun_K Buffer.init ws [] [] kinv_init hw
+  have l := builderRun_L Buffer.init ws [] [] [] kinv_init lr_init hw
+  have := finalize_L _ _ _ _ k l
+  simpa [Buffer.redactableBytes] using this
+
+
+theorem bracket_L (b : Buffer) (m : Mode) (f : Buffer → Buffer) (acc dacc pa sa : List Tok) (lacc la : List LB)
+    (k : KInv b acc dacc) (l : LR b lacc)
+    (hk : ∀ c, KInv c acc dacc → c.mode = m → KInv (f c) (acc ++ pa) (dacc ++ sa))
+    (hl : ∀ c, KInv c acc dacc → LR c lacc → c.mode = m → LR (f c) (lacc ++ la)) :
+    LR ((f (b.setMode m)).setMode b.mode) (lacc ++ la) :=
+  setMode_L _ _ _ _ _ (hk _ (setMode_K b m acc dacc k) (setMode_mode b m))
+    (hl _ (setMode_K b m acc dacc k) (setMode_L b m acc dacc lacc k l) (setMode_mode b m))
+
+theorem adapterStep_L (p : PPB) (w : WOp) (acc dacc : List Tok) (lacc : List LB) (k : KInv p.buf acc dacc) (l : LR p.buf lacc)
+    (ho : p.override = .no) (hw : CleanW w) (hnp : ∀ r, w ≠ .print r) :
+    LR (adapterStep p w).buf (lacc ++ labW w) := by
+  have wk : ∀ (m : Mode) (hm : m ≠ .raw) (s : List Byte), EndsRune s → ∀ c, KInv c acc dacc → c.mode = m →
+      KInv (c.write s) (acc ++ pendPlainT m s) (dacc ++ pendSafeT m s) := by
+    intro m hm s hs c kc hcm
+    have := write_K c s acc dacc kc (fun h => by rw [hcm] at h; exact absurd h hm) (fun _ => hs)
+    rw [hcm] at this; exact this
+  have wl : ∀ (m : Mode) (s : List Byte), ∀ c, KInv c acc dacc → LR c lacc → c.mode = m →
+      LR (c.write s) (lacc ++ pendLab m s) := by
+    intro m s c kc lc hcm
+    have := write_L c s acc dacc lacc kc lc
+    rw [hcm] at this; exact this
+  cases w with
+  | print r => exact absurd rfl (hnp r)
+  | safeString s =>
+    have := bracket_L p.buf .safeEsc (·.write s) acc dacc _ _ lacc _ k l (wk .safeEsc (by decide) s hw) (wl .safeEsc s)
+    simpa [adapterStep, PPB.startSafeOverride, PPB.restore, PPB.onBuf, ho, labW] using this
+  | safeNum s =>
+    have e : (adapterStep p (.safeNum s)).buf = (((p.buf.setMode .safeEsc).write s).setMode .safeEsc).setMode p.buf.mode := by
+      simp [adapterStep, PPB.startSafeOverride, PPB.startUnsafe, PPB.restore, PPB.onBuf, ho, setMode_mode]
+    rw [e]
+    have k1 := setMode_K p.buf .safeEsc acc dacc k
+    have l1 := setMode_L p.buf .safeEsc acc dacc lacc k l
+    have k2 := wk .safeEsc (by decide) s hw _ k1 (setMode_mode _ _)
+    have l2 := wl .safeEsc s _ k1 l1 (setMode_mode _ _)
+    have k3 := setMode_K _ .safeEsc _ _ k2
+    have l3 := setMode_L _ .safeEsc _ _ _ k2 l2
+    have := setMode_L _ p.buf.mode _ _ _ k3 l3
+    simpa [labW] using this
+  | unsafeString s =>
+    have := bracket_L p.buf .unsafeEsc (·.write s) acc dacc _ _ lacc _ k l (wk .unsafeEsc (by decide) s hw) (wl .unsafeEsc s)
+    simpa [adapterStep, PPB.startUnsafe, PPB.restore, PPB.onBuf, ho, labW] using this
+  | safeByte x =>
+    have hx : x < 0x80 := hw
+    have he : EndsRune [x] := Or.inr ⟨[], [x], rfl, by simpa [validRuneB] using hx⟩
+    have := bracket_L p.buf .safeEsc (·.writeByte x) acc dacc _ _ lacc _ k l
+      (fun c kc hcm => by rw [writeByte_ascii c x kc.inv hx]; exact wk .safeEsc (by decide) [x] he c kc hcm)
+      (fun c kc lc hcm => by rw [writeByte_ascii c x kc.inv hx]; exact wl .safeEsc [x] c kc lc hcm)
+    simpa [adapterStep, PPB.startSafeOverride, PPB.restore, PPB.onBuf, ho, labW] using this
+  | unsafeByte x =>
+    have hx : x < 0x80 := hw
+    have he : EndsRune [x] := Or.inr ⟨[], [x], rfl, by simpa [validRuneB] using hx⟩
+    have := bracket_L p.buf .unsafeEsc (·.writeByte x) acc dacc _ _ lacc _ k l
+      (fun c kc hcm => by rw [writeByte_ascii c x kc.inv hx]; exact wk .unsafeEsc (by decide) [x] he c kc hcm)
+      (fun c kc lc hcm => by rw [writeByte_ascii c x kc.inv hx]; exact wl .unsafeEsc [x] c kc lc hcm)
+    simpa [adapterStep, PPB.startUnsafe, PPB.restore, PPB.onBuf, ho, labW] using this
+  | safeRune r =>
+    have := bracket_L p.buf .safeEsc (·.writeRune r) acc dacc _ _ lacc _ k l
+      (wk .safeEsc (by decide) (encodeRune r) (endsRune_encodeRune r)) (wl .safeEsc (encodeRune r))
+    simpa [adapterStep, PPB.startSafeOverride, PPB.restore, PPB.onBuf, ho, labW] using this
+  | unsafeRune r =>
+    have := bracket_L p.buf .unsafeEsc (·.writeRune r) acc dacc _ _ lacc _ k l
+      (wk .unsafeEsc (by decide) (encodeRune r) (endsRune_encodeRune r)) (wl .unsafeEsc (encodeRune r))
+    simpa [adapterStep, PPB.startUnsafe, PPB.restore, PPB.onBuf, ho, labW] using this
+
+theorem adapterRun_L (p : PPB) (ws : List WOp) (acc dacc : List Tok) (lacc : List LB) (k : KInv p.buf acc dacc)
+    (l : LR p.buf lacc) (ho : p.override = .no) (hw : ∀ w ∈ ws, CleanW w ∧ ∀ r, w ≠ .print r) :
+    LR (adapterRun p ws).buf (lacc ++ ws.flatMap labW) := by
+  induction ws generalizing p acc dacc lacc with
+  | nil => simpa [adapterRun] using l
+  | cons w r ih =>
+    have ⟨k1, o1⟩ := adapterStep_K p w acc dacc k ho (hw w (by simp)).1 (hw w (by simp)).2
+    have l1 := adapterStep_L p w acc dacc lacc k l ho (hw w (by simp)).1 (hw w (by simp)).2
+    have := ih (adapterStep p w) _ _ _ k1 l1 o1 (fun w' hw' => hw w' (by simp [hw']))
+    simpa [adapterRun, List.flatMap_cons, List.append_assoc] using this
+
+/-- The same labelled reading on the printer's SafeWriter adapter. -/
+theorem adapter_lab_partial (ws : List WOp) (hw : ∀ w ∈ ws, CleanW w ∧ ∀ r, w ≠ .print r) :
+    labT (tokenize (adapterRun {} ws).buf.redactableBytes) = ws.flatMap labW := by
+  have k := adapterRun_K {} ws [] [] kinv_init rfl hw
+  have l := adapterRun_L {} ws [] [] [] kinv_init lr_init rfl hw
+  have := finalize_L _ _ _ _ k l
+  simpa [Buffer.redactableBytes] using this
+
+/-- **The implementations agree up to merging of adjacent envelopes**: the StringBuilder and the
+printer's SafeWriter adapter produce, for every such call sequence, redactables with the same bytes
+on the same sides (`labT_merge`, `labT_empty_env`: that is what merging `›‹` and dropping `‹›` preserve). -/
+theorem builder_adapter_same_lab_partial (ws : List WOp) (hw : ∀ w ∈ ws, CleanW w ∧ ∀ r, w ≠ .print r) :
+    labT (tokenize (adapterRun {} ws).buf.redactableBytes) = labT (tokenize (builderRun Buffer.init ws).redactableBytes) := by
+  rw [adapter_lab_partial ws hw, builder_lab_partial ws (fun w h => (hw w h).1)]
+
+
+/-! ### ManualBuffer: any sequence of `SetMode` and writes -/
+
+def opMode (m : Mode) : Op → Mode
+  | .setMode m' => m'
+  | _ => m
+
+def opLab (m : Mode) : Op → List LB
+  | .write p => pendLab m p
+  | .writeByte x => pendLab m [x]
+  | .writeRune r => pendLab m (encodeRune r)
+  | _ => []
+
+/-- The labelled reading an operation sequence should produce, from the mode it starts in. -/
+def runLab : Mode → List Op → List LB
+  | _, [] => []
+  | m, op :: r => opLab m op ++ runLab (opMode m op) r
+
+/-- Payloads: in raw mode finished redactables, otherwise anything ending in a complete character;
+single bytes ASCII and runes outside raw mode. -/
+def OpClean (m : Mode) : Op → Prop
+  | .setMode _ => True
+  | .write p => (m = .raw → Obtainable p ∧ RuneEnd (tokenize p)) ∧ (m ≠ .raw → EndsRune p)
+  | .writeByte x => x < 0x80 ∧ m ≠ .raw
+  | .writeRune _ => m ≠ .raw
+  | _ => False
+
+def OpsClean : Mode → List Op → Prop
+  | _, [] => True
+  | m, op :: r => OpClean m op ∧ OpsClean (opMode m op) r
+
+theorem step_KL (b : Buffer) (op : Op) (acc dacc : List Tok) (lacc : List LB) (k : KInv b acc dacc) (l : LR b lacc)
+    (h : OpClean b.mode op) :
+    (∃ acc' dacc', KInv (b.step op).1 acc' dacc') ∧ LR (b.step op).1 (lacc ++ opLab b.mode op) ∧ (b.step op).1.mode = opMode b.mode op := by
+  cases op with
+  | setMode m =>
+    exact ⟨⟨_, _, setMode_K b m acc dacc k⟩, by simpa [Buffer.step, opLab] using setMode_L b m acc dacc lacc k l, setMode_mode b m⟩
+  | write p =>
+    exact ⟨⟨_, _, write_K b p acc dacc k h.1 h.2⟩, write_L b p acc dacc lacc k l, write_mode b p⟩
+  | writeByte x =>
+    have he : EndsRune [x] := Or.inr ⟨[], [x], rfl, by simpa [validRuneB] using h.1⟩
+    simp only [Buffer.step]
+    rw [writeByte_ascii b x k.inv h.1]
+    exact ⟨⟨_, _, write_K b [x] acc dacc k (fun hr => absurd hr h.2) (fun _ => he)⟩, write_L b [x] acc dacc lacc k l, write_mode b _⟩
+  | writeRune r =>
+    exact ⟨⟨_, _, write_K b (encodeRune r) acc dacc k (fun hr => absurd hr h) (fun _ => endsRune_encodeRune r)⟩,
+      write_L b (encodeRune r) acc dacc lacc k l, write_mode b _⟩
+  | reset => exact h.elim
+  | take => exact h.elim
+  | grow n => exact h.elim
+  | accLen => exact h.elim
+  | accString => exact h.elim
+  | accRedactable => exact h.elim
+  | accMode => exact h.elim
+
+theorem run_KL (b : Buffer) (ops : List Op) (acc dacc : List Tok) (lacc : List LB) (k : KInv b acc dacc) (l : LR b lacc)
+    (h : OpsClean b.mode ops) :
+    (∃ acc' dacc', KInv (b.run ops) acc' dacc') ∧ LR (b.run ops) (lacc ++ runLab b.mode ops) := by
+  induction ops generalizing b acc dacc lacc with
+  | nil => exact ⟨⟨acc, dacc, by simpa [Buffer.run] using k⟩, by simpa [Buffer.run, runLab] using l⟩
+  | cons op r ih =>
+    obtain ⟨⟨a1, d1, k1⟩, l1, m1⟩ := step_KL b op acc dacc lacc k l h.1
+    have := ih (b.step op).1 a1 d1 _ k1 l1 (by rw [m1]; exact h.2)
+    rw [m1] at this
+    simpa [Buffer.run, runLab, List.append_assoc] using this
+
+/-- **ManualBuffer** (the buffer itself, with explicit `SetMode` and raw writes of finished
+redactables): every such operation sequence yields the labelled concatenation of its payloads. -/
+theorem buffer_lab_partial (ops : List Op) (h : OpsClean .unsafeEsc ops) :
+    labT (tokenize (Buffer.init.run ops).redactableBytes) = runLab .unsafeEsc ops := by
+  obtain ⟨⟨a, d, k⟩, l⟩ := run_KL Buffer.init ops [] [] [] kinv_init lr_init h
+  have := finalize_L _ _ _ _ k l
+  have hm : Buffer.init.mode = .unsafeEsc := rfl
+  rw [hm] at this
+  simpa [Buffer.redactableBytes] using this
+
+
+/-! Non-vacuity: a sequence with a line feed inside an unsafe payload and a marker inside a safe one. -/
+example : labT (tokenize (builderRun Buffer.init
+      [.safeString [0x61], .unsafeString [0x62, 0x0A, 0x63], .safeString ([0x64] ++ startB)]).redactableBytes)
+    = [(0x61, false), (0x62, true), (0x0A, false), (0x63, true), (0x64, false), (0x3F, false)] := by decide
 
 end Redact
